@@ -130,6 +130,11 @@ void Ruleset::prerun(OomdContext& context) {
   for (const auto& action : action_group_) {
     action->prerun(context);
   }
+  // per-cgroup instances keep their own plugin state; they need prerun on
+  // every tick as well, not only on the tick that creates them
+  for (const auto& runnable : runnable_rulesets_) {
+    runnable.second->prerun(context);
+  }
 }
 
 uint32_t Ruleset::runOnce(OomdContext& context) {
